@@ -445,7 +445,15 @@ def _is_array_expr(e):
 def case_strategy(draw, mode="cache"):
     opts = draw(option_set(mode))
     model, feats = draw(flat_model(opts))
-    return {"model": model, "options": opts, "mode": mode, "third": draw(st.integers(0, 3)) == 0, "gen": feats}
+    # sometimes the folder already holds a cache / compiled libraries written for ANOTHER option set
+    # (one function-changing option toggled): the cache for the current options must not reuse them
+    prior = None
+    if mode == "codegen":
+        # the few codegen cases of the quick tier always start from a folder with libraries of another option set
+        prior = draw(st.sampled_from(["detect_aliases", "expand_vectors", "detect_aliases"]))
+    elif draw(st.integers(0, 4)) == 0:
+        prior = draw(st.sampled_from(["detect_aliases", "expand_vectors", "replace_constant_values", "eliminate_constant_assignments"]))
+    return {"model": model, "options": opts, "mode": mode, "third": draw(st.integers(0, 3)) == 0, "gen": feats, "prior": prior}
 
 
 # --------------------------------------------------------------------------
@@ -662,6 +670,17 @@ def check_case(ctx, case):
         if os.path.exists(os.path.join(ref_folder, "M.pymoca_cache")):
             raise env.HarnessError("reference folder holds a cache file")
         info = classify(ref)
+        prior = case.get("prior")
+        if prior:
+            popts = dict(opts)
+            popts[prior] = not bool(opts.get(prior))
+            try:
+                api.transfer_model(str(folder), "M", dict(popts, **{mode: True}))
+                ctx.extra["prior_option_set_compiled"] += 1
+            except Exception as e:  # noqa: BLE001 - the other option set is only a way to leave files behind
+                if pymoca_frame(e) == "?":
+                    raise
+                ctx.extra["prior_option_set_raises"] += 1
         # ---- first call: compile + save
         m1 = transfer(api, folder, opts, mode, "first_transfer", "first call" + tail)
         if isinstance(m1, api.CachedModel):
@@ -729,6 +748,8 @@ def check_case(ctx, case):
                 labels.append("array_in_" + cat)
         if case.get("third"):
             labels.append("third_call")
+        if case.get("prior"):
+            labels.append("folder_used_before_with_other_options")
         nontrivial = bool(info["dep"] or ref.delay_states)
         return dict(nontrivial=nontrivial, labels=sorted(set(labels)),
                     sample={"text": text, "mode": mode, "options": shown})
